@@ -152,3 +152,6 @@ func Gate() {}
 
 // Symbolic reports whether the harness runs under the symbolic executor.
 func Symbolic() bool { return false }
+
+// Concretize fixes one representative value for s on this path (natively: identity).
+func Concretize(s string) string { return s }
